@@ -2,6 +2,7 @@
 import Rooc.Wire
 import Rooc.Pre.Types
 import Rooc.Pre.Expand
+import Rooc.Pre.Lets
 namespace Rooc.Pre
 open Rooc Sexp
 
@@ -21,7 +22,7 @@ partial def Kind.dec : Sexp → Option Kind
   | .list (.atom "tuple" :: ks) => (optAll (ks.map Kind.dec)).map .tuple
   | _ => none
 
-def decInt (s : String) : Option Int :=
+def decIntStr (s : String) : Option Int :=
   match s.toList with
   | '-' :: ds => (String.ofList ds).toNat?.map (fun n => -(n : Int))
   | _ => s.toNat?.map (fun n => (n : Int))
@@ -38,7 +39,7 @@ def Prim.enc : Prim α → Sexp
 
 def Prim.dec : Sexp → Option (Prim α)
   | .list [.atom "num", n] => (decNumS n).map .number
-  | .list [.atom "int", .atom s] => (decInt s).map .integer
+  | .list [.atom "int", .atom s] => (decIntStr s).map .integer
   | .list [.atom "pint", .atom s] => s.toNat?.map .pint
   | .list [.atom "bool", .atom "true"] => some (.boolean true)
   | .list [.atom "bool", .atom "false"] => some (.boolean false)
@@ -50,6 +51,21 @@ partial def PExp.dec : Sexp → Option (PExp α)
   | .list [.atom "lit", p] => (Prim.dec p).map .lit
   | .list [.atom "un", .atom op, e] => do pure (.un (← UnOp.ofName op) (← PExp.dec e))
   | .list [.atom "bin", .atom op, a, b] => do pure (.bin (← BinOp.ofName op) (← PExp.dec a) (← PExp.dec b))
+  | _ => none
+
+partial def TVal.dec : Sexp → Option (TVal α)
+  | .list (.atom "arr" :: vs) => (optAll (vs.map TVal.dec)).map mkArr
+  | s => (Prim.dec s).map .scalar
+partial def TVal.enc : TVal α → Sexp
+  | .scalar p => p.enc
+  | .arr _ vs => app "arr" (vs.map TVal.enc)
+partial def TE.dec : Sexp → Option (TE α)
+  | .list [.atom "lit", v] => (TVal.dec v).map .lit
+  | .list [.atom "var", .str n] => some (.var n)
+  | .list [.atom "un", .atom op, e] => do pure (.un (← UnOp.ofName op) (← TE.dec e))
+  | .list [.atom "bin", .atom op, a, b] => do pure (.bin (← BinOp.ofName op) (← TE.dec a) (← TE.dec b))
+  | .list (.atom "acc" :: .str n :: idx) => (optAll (idx.map TE.dec)).map (.access n)
+  | .list (.atom "call" :: .str f :: args) => (optAll (args.map TE.dec)).map (.call f)
   | _ => none
 
 def encRes (r : Except OpErr (Prim α)) : Sexp :=
